@@ -80,17 +80,12 @@ def run(pid):
         if r.violated:
             raise vlib.Infra("RecordList.tla violates its own invariants - model counter-example must be replayed first:\n" + r.out[-2500:])
         rep.add_model(r)
-        # 2. one scenario per reachable state, replayed on the real index
-        g = vlib.tlc_must("MCRecordList", "MCRecordList_gen.cfg", consts=consts, timeout=1500)
-        scens = g.printed("SCN")
-        if len(scens) != g.distinct:
-            raise vlib.Infra("scenario export incomplete: %d scenarios for %d states" % (len(scens), g.distinct))
+        # 2. one scenario per reachable transition (shortest history + the step), replayed on the real index
+        scens, g, nexp = vlib.gen_scenarios("MCRecordList", "MCRecordList", consts, edges=True)
         keys = [list(k) for k in itertools.product(c["alpha"], repeat=c["L"])]
         for s in scens:
             s["keys"] = keys
-        nstates = len(scens)
-        scens = vlib.drop_prefixes(scens, key=lambda s: s["ops"])
-        vlib.log("C08 %s: %d model states, %d maximal histories" % (consts, nstates, len(scens)))
+        vlib.log("C08 %s: %d model states, %d transitions, %d maximal histories" % (consts, g.distinct, nexp, len(scens)))
         total_scn += len(scens)
         if not rep.cov["samples"]:
             rep.cov["samples"] = [s["ops"] for s in scens[:: max(1, len(scens) // 3)][:3]]
@@ -102,7 +97,7 @@ def run(pid):
     judge(rep, pid, rs, "rand")
     rep.cov["exhaustive"] = exhaustive
     rep.cov["distinct_nontrivial"] = total_scn + n
-    rep.cov["rule"] = ("one history per reachable state of RecordList.tla (BFS shortest path, maximal histories only) replayed on a real "
+    rep.cov["rule"] = ("one history per reachable TRANSITION of RecordList.tla (BFS shortest path to the source state + the step; maximal histories only) replayed on a real "
                        "index.Index over the in-memory primary, plus seeded random histories over larger alphabets; distinct by op sequence; "
                        "non-trivial = at least one insert into a non-empty bucket")
     rep.assumptions = ["TLC + Json module", "keys equal-length and distinct (as the property states)", "in-memory primary returns the key it was given"]
@@ -110,7 +105,7 @@ def run(pid):
 
 
 def replay(pid, path):
-    rep = vlib.Report(pid)
+    rep = vlib.Report(pid, replay=True)
     with open(path) as f:
         obj = json.load(f)
     vlib.build_harness()
